@@ -27,11 +27,31 @@ def nontrivial(w, res):
             res.shape(*s)
 
 
+def extra(ctx):
+    """Small-scope enumeration shared with C01: every sequence of <= 3 (thorough: 4) subscription-control / publish
+    operations by two clients next to a logger, checked with the acknowledgement oracle."""
+    from checks.c01 import shard_enum
+    from vlib.common import run_shards
+
+    depth = 3 if ctx.quick else 4
+    res = run_shards(shard_enum, [(i, 16, depth, {"ack", "framing"}, "C19", False) for i in range(16)])
+    res.notes.append(f"sub-domain enumerated completely: every sequence of <= {depth} subscription-control / publish operations "
+                     "(16 symbols, 2 acting clients + a logger module), ACK accounting after every round")
+    return res
+
+
 CHECK = SimCheck(
     "C19", [CONTROL],
     [{"timecode": False, "timing": True, "log": "error"}, {"timecode": True, "timing": False, "log": "silent"},
      {"timecode": False, "timing": True, "log": "info"}],
     RULE, ["because one frame per connection is served per round, checking ACK counts after every round pins the order of acknowledgements on each connection"],
-    quick=(900, 60), thorough=(20000, 150), nontrivial=nontrivial,
+    quick=(900, 60), thorough=(20000, 150), nontrivial=nontrivial, extra=extra,
 )
+def _replay_extra(tr):
+    from checks.c01 import run_enum_script
+
+    run_enum_script(tr["cfg"], tr["ops"], None, {"ack", "framing"}, "C19")
+
+
+CHECK.replay_extra = _replay_extra
 run, replay_trace, shard = CHECK.run, CHECK.replay_trace, CHECK.shard
